@@ -53,11 +53,12 @@ pub fn node_strategy() -> impl Strategy<Value = NodeCase> {
         prop::collection::vec((prop_oneof![2 => Just(0u32), 2 => 0u32..2000, 1 => 0u32..100_000], 1u8..12), 1..6),
         0u8..3,
         prop_oneof![Just(50u16), Just(500u16), Just(3000u16)],
+        0u8..2,
     )
-        .prop_map(|(conns, mut rest, bursts, batch, backend_timeout_ms)| {
+        .prop_map(|(conns, mut rest, bursts, batch, backend_timeout_ms, shapes)| {
             // the tail plan must eventually let traffic through, or nothing is learned
             rest.refuse = false;
-            NodeCase { script: Script { conns, rest }, bursts, batch, backend_timeout_ms }
+            NodeCase { script: Script { conns, rest, shapes }, bursts, batch, backend_timeout_ms }
         })
 }
 
@@ -94,6 +95,18 @@ fn request(id: usize) -> (CmdCtx, undermoon::proxy::command::CmdReplyReceiver) {
     let cmd = Command::new(Box::new(RespPacket::from_resp_vec(resp)));
     let (sender, receiver) = new_command_pair(&cmd);
     (CmdCtx::new(cmd, sender, 1, false), receiver)
+}
+
+fn shape_name(v: &crate::engines::codec::RVal) -> &'static str {
+    use crate::engines::codec::RVal;
+    match v {
+        RVal::Simple(_) => "simple",
+        RVal::Error(_) => "error",
+        RVal::Int(_) => "int",
+        RVal::Bulk(Some(b)) if b.len() > 8192 => "bulk>8KiB",
+        RVal::Bulk(_) => "bulk",
+        RVal::Arr(_) => "array",
+    }
 }
 
 async fn run_node(case: &NodeCase, obs: &mut Obs) -> Result<(), Fail> {
@@ -137,24 +150,43 @@ async fn run_node(case: &NodeCase, obs: &mut Obs) -> Result<(), Fail> {
             ),
         };
         match r {
-            Ok(reply) => match reply.into_resp_vec() {
-                Resp::Bulk(BulkStr::Str(s)) => {
-                    let want = format!("re:id{}", id).into_bytes();
-                    ensure!(
-                        s == want,
-                        "C08:reply-of-another-request",
-                        "request id{} received the reply {:?}; connections opened: {}, cuts (conn, reply bytes written): {:?}",
-                        id,
-                        String::from_utf8_lossy(&s),
-                        be.conn_count.load(std::sync::atomic::Ordering::SeqCst),
-                        be.cuts.lock()
-                    );
-                    ok_replies += 1;
+            Ok(reply) => {
+                let got = crate::engines::codec::RVal::from_resp(&reply.into_resp_vec());
+                let want = format!("re:id{}", id).into_bytes();
+                match marker_of(&got) {
+                    Some(m) => {
+                        ensure!(
+                            m == want,
+                            "C08:reply-of-another-request",
+                            "request id{} received the reply of {:?}; connections opened: {}, cuts (conn, reply bytes written): {:?}",
+                            id,
+                            String::from_utf8_lossy(&m),
+                            be.conn_count.load(std::sync::atomic::Ordering::SeqCst),
+                            be.cuts.lock()
+                        );
+                        // the whole reply, not only its marker, must be the one the backend produced
+                        let sent = ScriptedBackend::shaped_reply_for(case.script.shapes, &[format!("id{}", id).into_bytes()]);
+                        ensure!(got == sent, "C08:reply-altered", "request id{} received a reply that differs from what the backend wrote for it (got {} bytes of shape {:?})", id, got.encoded().len(), shape_name(&got));
+                        obs.class(format!("reply-shape:{}", shape_name(&got)));
+                        ok_replies += 1;
+                    }
+                    None => match got {
+                        crate::engines::codec::RVal::Error(e) => {
+                            if std::env::var("VERIF_DEBUG").is_ok() {
+                                eprintln!("id{} -> error reply {:?}", id, String::from_utf8_lossy(&e));
+                            }
+                            err_replies += 1
+                        }
+                        other => fail!("C08:unexpected-reply", "request id{} received {:?}", id, other),
+                    },
                 }
-                Resp::Error(_) => err_replies += 1,
-                other => fail!("C08:unexpected-reply", "request id{} received {:?}", id, crate::engines::world::show_resp(&other)),
-            },
-            Err(CommandError::Dropped) | Err(_) => err_replies += 1,
+            }
+            Err(e) => {
+                if std::env::var("VERIF_DEBUG").is_ok() {
+                    eprintln!("id{} -> Err({:?})", id, e);
+                }
+                err_replies += 1
+            }
         }
     }
     ensure!(
@@ -230,15 +262,16 @@ pub fn session_strategy() -> impl Strategy<Value = SessionCase> {
         prop::collection::vec(1u16..40, 0..6),
         0u8..3,
         1u8..4,
+        0u8..2,
     )
-        .prop_map(|(mut conns, mut rest, kinds, write_fragments, batch, backend_conn_num)| {
+        .prop_map(|(mut conns, mut rest, kinds, write_fragments, batch, backend_conn_num, shapes)| {
             rest.refuse = false;
             // real time: keep latencies short
             for p in conns.iter_mut().chain(std::iter::once(&mut rest)) {
                 p.latency_us = p.latency_us.min(3000);
                 p.stall_after = None;
             }
-            SessionCase { script: Script { conns, rest }, kinds, write_fragments, batch, backend_conn_num }
+            SessionCase { script: Script { conns, rest, shapes }, kinds, write_fragments, batch, backend_conn_num }
         })
 }
 
@@ -331,8 +364,12 @@ pub fn check_session(case: &SessionCase, obs: &mut Obs) -> Result<(), Fail> {
                 (3, RVal::Simple(_)) => true,
                 (1, RVal::Simple(s)) => s == b"OK",
                 (2, RVal::Bulk(Some(s))) => s == want,
-                (0, RVal::Bulk(Some(s))) => s == want,
-                (0, RVal::Error(_)) => true, // a failed exchange is answered with an error
+                (0, v) => match marker_of(v) {
+                    // a backend reply: it must be the one written for this request, unaltered
+                    Some(m) => &m == want && *v == ScriptedBackend::shaped_reply_for(case.script.shapes, &[want[3..].to_vec()]),
+                    // a failed exchange is answered with an error
+                    None => matches!(v, RVal::Error(_)),
+                },
                 _ => false,
             };
             ensure!(
@@ -366,6 +403,50 @@ pub fn check_session(case: &SessionCase, obs: &mut Obs) -> Result<(), Fail> {
     result
 }
 
+/// Every cut position of a fixed pipeline: for 6 (and 2x4) requests answered with 12-byte replies the
+/// first connection is closed after every byte count 0..=total of the reply stream and after every
+/// request count; the second connection is clean, refuses once, or is cut again at a few positions;
+/// for every batching strategy and three fragmentations.
+pub fn enumerated_cases() -> Vec<NodeCase> {
+    let mut v = vec![];
+    let clean = ConnPlan { coalesce: 1, ..Default::default() };
+    for (bursts, nreq) in [(vec![(0u32, 6u8)], 6usize), (vec![(0u32, 4u8), (700u32, 4u8)], 8usize)] {
+        let total = (nreq * 12) as u32;
+        for batch in 0u8..3 {
+            for fragments in [vec![], vec![1u16], vec![5u16, 2]] {
+                for coalesce in [1u8, 3] {
+                    let mut firsts = vec![];
+                    for cut in 0..=total {
+                        firsts.push(ConnPlan { fragments: fragments.clone(), coalesce, cut_after_reply_bytes: Some(cut), ..Default::default() });
+                    }
+                    for m in 1..=nreq as u16 {
+                        firsts.push(ConnPlan { fragments: fragments.clone(), coalesce, cut_after_requests: Some(m), ..Default::default() });
+                    }
+                    for first in firsts {
+                        // second connection: clean / refused once then clean / cut again (three positions)
+                        let mut seconds: Vec<Vec<ConnPlan>> = vec![vec![], vec![ConnPlan { refuse: true, ..Default::default() }]];
+                        if fragments.is_empty() && coalesce == 1 {
+                            for cut2 in [0u32, 13, 30] {
+                                seconds.push(vec![ConnPlan { coalesce: 1, cut_after_reply_bytes: Some(cut2), ..Default::default() }]);
+                            }
+                            // cut on every connection until the retry budget is exhausted
+                            seconds.push((0..5).map(|_| ConnPlan { coalesce: 1, cut_after_reply_bytes: Some(5), ..Default::default() }).collect());
+                        }
+                        for second in seconds {
+                            let mut conns = vec![first.clone()];
+                            conns.extend(second);
+                            v.push(NodeCase { script: Script { conns, rest: clean.clone(), shapes: 0 }, bursts: bursts.clone(), batch, backend_timeout_ms: 500 });
+                        }
+                    }
+                }
+            }
+        }
+    }
+    v
+}
+
+pub const RULE_ENUM: &str = "[enumerated] fixed pipelines (6 requests in one burst; 4+4 in two bursts) x every cut position of the first connection's reply byte stream (0..=total bytes) and every cut-after-request count x {disabled, fixed, dynamic} batching x 3 fragmentations x 2 coalescing factors x second connection {clean, refused once, cut again at 3 positions, cut on 5 consecutive connections}; same oracle as backend-node; exhaustive over this grid";
+
 pub const RULE_NODE: &str = "[backend-node] the real BackendNode/handle_backend with the real ReplyCommitHandler and real CmdCtx tasks over a scripted backend behind the ConnFactory seam (real RespCodec over an in-memory duplex byte stream): pipelines of up to ~60 requests with unique ids in generated bursts; per connection a generated plan: refuse, reply latency, byte-level fragmentation of the reply stream, coalescing of several replies into one write, stall after n requests (backend_timeout 50/500/3000 ms), cut after byte n of the reply stream / after request m, then the next connection's plan; batching in {disabled, fixed, dynamic}; oracle: every request resolves exactly once within bounded virtual time, a successful reply carries the request's own id, otherwise an error; the backend sees a request at most 4 times; non-trivial = a cut strictly inside the reply stream with requests on both sides, or fragmentation inside a packet";
 pub const RULE_SESSION: &str = "[session] the full stack over loopback TCP: real handle_session -> Session -> ForwardHandler -> scripted backend (backend_conn_num 1..3); pipelined requests (backend GETs interleaved with locally answered PING/ECHO) written in generated fragments; oracle: reply k answers request k (own key / own echo / OK / an error for a failed backend exchange), counts equal; non-trivial = a cut or fragmentation";
 
@@ -377,11 +458,15 @@ pub fn run(ctx: &Ctx, findings: &Findings) -> PropReport {
         if let Some(r) = replay_case::<NodeCase>(ctx, findings, "backend-node", &v, &check_node) {
             subs.push(r);
         }
+        if let Some(r) = replay_case::<NodeCase>(ctx, findings, "enumerated", &v, &check_node) {
+            subs.push(r);
+        }
         if let Some(r) = replay_case::<SessionCase>(ctx, findings, "session", &v, &check_session) {
             subs.push(r);
         }
     } else {
         subs.push(drive(ctx, findings, "backend-node", RULE_NODE, ctx.cases(20000, 400000), node_strategy, &check_node));
+        subs.push(drive_enum(ctx, findings, "enumerated", RULE_ENUM, enumerated_cases(), true, &check_node));
         let sctx = Ctx { prop: ctx.prop.clone(), tier: ctx.tier, seed: ctx.seed, replay: None, verif_dir: ctx.verif_dir.clone(), workers: 8, started: ctx.started, scale: ctx.scale };
         subs.push(drive(&sctx, findings, "session", RULE_SESSION, ctx.cases(800, 16000), session_strategy, &check_session));
     }
